@@ -180,6 +180,12 @@ def semantic_check(case, r: Result, allow_index_error=False, total=False):
         if _SHARED is None:
             _SHARED = simplify_chained_calls()
             _SHARED.visit(ast.parse("Select(ds, lambda e: e.x)", mode="eval").body)
+        if len(case["src"]) % 4 == 0:
+            # ... and that has REFUSED a query before (its dedicated index error, caught by the caller as a backend would)
+            try:
+                _SHARED.visit(ast.parse("Select(ds, lambda e: Select(e.jets, lambda j: (e.x, j.y)[5]))", mode="eval").body)
+            except FuncADLIndexError:
+                pass
         simplifier = _SHARED
         r.labels.append("simplifier-instance-used-before")
     else:
